@@ -832,4 +832,3 @@ package websocket
 //@ ensures [no-conn-on-error] err != nil ==> result0 == nil
 //@ ensures [conn-only-if-valid] err == nil ==> result0 != nil && result1 != nil && specValidResponse(specDialSubprotocols(opts), specKeyFrom(specRandSrc(rand), old(ghrd(specRandSrc(rand)).pos)), result1)
 //@ ensures [client-role] err == nil ==> result0.client
-
